@@ -94,12 +94,13 @@ def run_c17(ctx):
     ctx.build(["dv"])
     q = ctx.quick()
     maxlen, ext_mc, ext_gen = (5, 1, 2) if q else (6, 1, 2)
-    nrand, npaths = (40, 150) if q else (300, 1200)
+    maxlen_mc = 4 if q else 6       # the model check (spec-internal) is smaller at the quick tier
+    nrand, npaths = (40, 100) if q else (300, 800)
     # 1. exhaustive model: walk machine = recursive definition = generated language
     # 2. behaviour generator (run side by side, two TLC processes) + replay
     with cf.ThreadPoolExecutor(max_workers=2) as ex:
         fmc = ex.submit(ctx.tlc, "SchemaPathMC", "SchemaPathMC.cfg", workers=10, timeout=2400, heap="10g",
-                        consts={"Shapes": set_lit(PATH_SHAPES), "MaxLen": maxlen, "Ext": ext_mc, "LangLen": 3})
+                        consts={"Shapes": set_lit(PATH_SHAPES), "MaxLen": maxlen_mc, "Ext": ext_mc, "LangLen": 3})
         fg = ex.submit(ctx.tlc, "SchemaPathGen", "SchemaPathGen.cfg", workers=6, timeout=2400, heap="10g",
                        consts={"Shapes": set_lit(PATH_SHAPES + [100]), "MaxLen": maxlen, "Ext": ext_gen, "NRand": nrand, "RandDepth": 3},
                        extra=["-seed", str(ctx.seed)])
@@ -125,10 +126,10 @@ def run_c17(ctx):
         raise Infra("self-test: replay-path accepted a perturbed expectation")
     mism = read_ndjson(res)
     for m in mism:
-        sig = path_sig("replay", m["want"]["ok"], m["want"]["at"], m["got"]["ok"], m["got"]["at"], m["want"]["ph"], m["inc"])
+        sig = path_sig("replay", m["want"]["ok"], m["want"]["at"], m["got"]["ok"], m["gotat"], m["want"]["ph"], m["inc"])
         ctx.disagree(sig, f"path {m['p']} (shape {m['shape']}, incomplete allowed={m['inc']}): spec "
                      + ("accepts" if m["want"]["ok"] else f"rejects at element {m['want']['at']}") + ", code "
-                     + ("accepts" if m["got"]["ok"] else f"blames element {m['got']['at']} {m['got']['tok']!r} ({m['got']['form']})"),
+                     + ("accepts" if m["got"]["ok"] else f"identifies element {m['gotat']} ({m['got']['form']} error, path {m['got']['epath']}, tag {m['got']['tok']!r}; -1 = none of the input)"),
                      dict(kind="replay", shape=m["shape"], path=m["p"], incomplete_allowed=m["inc"], want=m["want"], got=m["got"],
                           how=f"bin/check C17 --tier {ctx.tier}; dv probe <sps_{m['shape']}.ndjson> {' '.join(m['p'])}"))
     # 3. code -> model: seeded random paths on sampled schemas and on the shapes
@@ -149,13 +150,13 @@ def run_c17(ctx):
 
     def corrupt(ev):
         ev["ok"] = not ev["ok"]
-        ev["at"] = 0 if ev["ok"] else 1
+        ev.update(form="" if ev["ok"] else "unknown", epath=[], tok="" if ev["ok"] else ev["p"][0], mv=False)
     selftest_trace(ctx, "SchemaPathTrace", trace, schemas, corrupt)
     for f in fails:
         sig = path_sig("trace", f["wantok"], f["wantat"], f["gotok"], f["gotat"], f["ph"], f["inc"])
         ctx.disagree(sig, f"path {f['p']} (schema {f['sid']}, incomplete allowed={f['inc']}): spec "
                      + ("accepts" if f["wantok"] else f"rejects at element {f['wantat']}") + ", code "
-                     + ("accepts" if f["gotok"] else f"blames element {f['gotat']} {f['gottok']!r}"),
+                     + ("accepts" if f["gotok"] else f"identifies element {f['gotat']} ({f['form']} error, path {f['epath']}, tag {f['gottok']!r}; 0 = none of the input)"),
                      dict(kind="trace", failure=f, how=f"bin/check C17 --tier {ctx.tier} --seed {ctx.seed}"))
     distinct = set()
     samples = []
@@ -174,7 +175,7 @@ def run_c17(ctx):
                     "over {all node names incl. choice/case, valid value, invalid value, unknown}, both modes; distinct = (shape, path) with >= 2 tokens; "
                     "trace: seeded random walks with one-token corruptions and over-long tails on TLC-sampled schemas and the shapes",
                samples=samples, shapes=len(PATH_SHAPES), vectors=nvec, replay_evaluations=stat["evaluations"], trace_events=events,
-               sampled_schemas=nrand, unjudged=dict(empty_path=1, sampled_schemas_refused_by_compiler=rstat["uncompilable"]), bounds=dict(MaxLen=maxlen, Ext=ext_gen, ExtMC=ext_mc),
+               sampled_schemas=nrand, unjudged=dict(empty_path=1, sampled_schemas_refused_by_compiler=rstat["uncompilable"]), bounds=dict(MaxLen=maxlen, Ext=ext_gen, MaxLenMC=maxlen_mc, ExtMC=ext_mc),
                exhaustive=True,
                explanation="TLC explored the walk machine on every token sequence that keeps the walk alive (plus Ext tokens past a rejection) for 12 schema shapes "
                            "and checked it against the recursive definition, the prefix characterisation of 'first offending' and the generated language; "
@@ -245,7 +246,7 @@ def run_c18(ctx):
     ctx.build(["dv"])
     q = ctx.quick()
     me, ml = 3, 3
-    wide = [5, 7, 12, 15] if q else [s for s in DATA_SHAPES if s not in (11, 18) and s < 19]     # shapes explored with 3 list entries (the others with 2)
+    wide = [5, 7, 12, 15] if q else [s for s in DATA_SHAPES if s not in (6, 11, 14, 18) and s < 19]     # shapes explored with 3 list entries (the others with 2)
     nrand, nmut = (600, 4) if q else (2000, 6)
     with cf.ThreadPoolExecutor(max_workers=2) as ex:       # model and generator side by side (two TLC processes)
         fmc = ex.submit(ctx.tlc, "DataValidateMC", "DataValidateMC.cfg", workers=8, timeout=2400, heap="10g",
@@ -279,7 +280,7 @@ def run_c18(ctx):
         what, inch, leaf = ("", False, [])
         if m["kind"] in ("decorate", "twice", "explicit-altered"):
             what, inch, leaf = deco_class(shapes[m["shape"]], m["d"], m["want"], m["got"])
-        sig = data_sig("replay", m["kind"], v.get("k", ""), what, inch)
+        sig = data_sig("replay", m["kind"], v.get("k") or v.get("t", ""), what, inch)
         ctx.disagree(sig, f"shape {m['shape']}: {m['kind']} " + (f"{v.get('k')} {v.get('n')} at /{'/'.join(v.get('path') or [])}" if v else f"{what} {'/'.join(leaf)}"),
                      dict(kind="replay", shape=m["shape"], mismatch=m["kind"], data=m["d"], want=m["want"], got=m["got"], violation=v,
                           how=f"bin/check C18 --tier {ctx.tier}; dv probe <dvs_{m['shape']}.ndjson> -data '<data json>'"))
@@ -295,13 +296,13 @@ def run_c18(ctx):
     ctx.traces += events
 
     def corrupt(ev):
-        ev["errs"] = ev["errs"] + [dict(k="missing", n="no-such-node", path=[])]
+        ev["errs"] = ev["errs"] + [dict(t="exec", k="", n="", path=["no-such-node"])]
     selftest_trace(ctx, "DataValidateTrace", trace, schemas, corrupt)
     for f in fails:
         for kind in ([f["vbad"]] if f["vbad"] else []) + ([f["dbad"]] if f["dbad"] else []):
             isd = kind in ("decorate", "twice", "explicit-altered")
             sig = data_sig("trace", kind, "" if isd else f["vk"], f["diff"]["what"] if isd else "", f["diff"]["inchoice"] if isd else False)
-            ctx.disagree(sig, f"schema {f['sid']}: {kind} " + (f"{f['diff']['what']} {'/'.join(f['diff']['leaf'])}" if isd else f"{f['vk']} {f['vn']}"),
+            ctx.disagree(sig, f"schema {f['sid']}: {kind} " + (f"{f['diff']['what']} {'/'.join(f['diff']['leaf'])}" if isd else f"{f['vk']} ({f['vt']} error at /{'/'.join(f['vpath'])})"),
                          dict(kind="trace", failure=f, how=f"bin/check C18 --tier {ctx.tier} --seed {ctx.seed}"))
     samples = []
     for s in (4, 5):
